@@ -15,7 +15,10 @@ def text_value(rnd, special, long_):
     n = rnd.randint(1, 5)
     v = ' '.join(rnd.choice(WORDS) for _ in range(n))
     if special: v += rnd.choice(SPECIAL) + rnd.choice(WORDS)
-    if long_: v += ' ' + 'p' * max(0, rnd.choice([700, 900, 960, 1000, 1012]) - len(ical_escape(v)) - 12)      # the whole line stays within the 1 KiB limit
+    if long_:
+        # the unescaped, unfolded line stays within the 1 KiB limit; its raw form (escapes, folding) may well exceed it
+        if special: v += ' ' + ''.join(rnd.choice(['q', 'q', 'q', 'q', 'q', 'q', 'q', ',', ';']) for _ in range(max(0, rnd.choice([700, 900, 980]) - len(v))))
+        else: v += ' ' + 'p' * max(0, rnd.choice([700, 900, 960, 1000]) - len(v) - 12)
     return v
 
 def path_value(rnd, special):
@@ -57,8 +60,15 @@ def make_fields(rnd, uid):
     ev = [ev[0]] + body if rnd.random() < 0.8 else body[:len(body) // 2] + [ev[0]] + body[len(body) // 2:]
     return ev, cal, special, long_
 
-def lines_of(fields):
-    return ['%s:%s' % (n, t if t is not None else ical_escape(v)) for n, t, v in fields]
+def fold(line, rnd):
+    """RFC 5545 3.1 line folding of long lines (CRLF + one space every 75 octets), on some of them"""
+    if len(line) <= 75 or rnd.random() < 0.5: return line
+    parts = [line[:75]] + [line[i:i + 74] for i in range(75, len(line), 74)]
+    return '\r\n '.join(parts)
+
+def lines_of(fields, rnd=None):
+    L = ['%s:%s' % (n, t if t is not None else ical_escape(v)) for n, t, v in fields]
+    return [fold(l, rnd) for l in L] if rnd else L
 
 def schedule(rnd):
     """(ds, dtstart line, schedule lines, descriptor) over the whole input language"""
@@ -140,7 +150,7 @@ def run(tier, seed):
         uid = 'j%d' % i + ''.join(rnd.choice('abcdefghij-') for _ in range(rnd.choice([0, 1, 2, 3, 4, 5, 6, 7, 8, 9, 12, 13, 16, 29])))       # unique, of every length modulo 4
         ev, cal, special, long_ = make_fields(rnd, uid)
         sl, sd = schedule(rnd)
-        evl = lines_of(ev); pos = rnd.randint(0, len(evl)); body = evl[:pos] + sl + evl[pos:] if rnd.random() < 0.5 else sl + evl
+        evl = lines_of(ev, rnd); pos = rnd.randint(0, len(evl)); body = evl[:pos] + sl + evl[pos:] if rnd.random() < 0.5 else sl + evl
         text = '\n'.join(['BEGIN:VCALENDAR', 'VERSION:2.0'] + lines_of(cal) + ['BEGIN:VEVENT'] + body + ['END:VEVENT', 'END:VCALENDAR', ''])
         k = rnd.choice([0, 0, 1, 2, 5, 30, 62, 63, 64, 65, 70, 127, 128, 130, 200])
         cases.append({'k': k, 'm': 20, 'text': text, 'first': rnd.random() < 0.5, 'ev': [{'n': a, 'v': enc(c)} for a, b, c in ev], 'cal': [{'n': a, 'v': enc(c)} for a, b, c in cal], 'sched': sd, 'special': special, 'long': long_})
